@@ -149,6 +149,55 @@ func init() {
 			}
 		}
 
+		// protectManagedHeaders (D12d): the fixed list, the configured names it adds, how a Connection token is
+		// turned into a header name, and that addHeaders calls it last
+		if prot := x.funcDecl("proxy", "", "protectManagedHeaders"); prot != nil {
+			if e := x.valueSpec("proxy", "managedHeaders"); e != nil {
+				if cl, ok := e.(*ast.CompositeLit); ok {
+					var vs []string
+					for _, el := range cl.Elts {
+						v, ok := x.strLit(el)
+						if !ok {
+							x.fail("managedHeaders: non-literal element %s", x.src(el))
+						}
+						vs = append(vs, v)
+					}
+					x.defStrList("managedHeaders", vs)
+				} else {
+					x.fail("proxy.managedHeaders is not a composite literal")
+				}
+			}
+			var cfgNames, tokKeys []string
+			ast.Inspect(prot.Body, func(n ast.Node) bool {
+				switch v := n.(type) {
+				case *ast.CompositeLit:
+					for _, el := range v.Elts {
+						if strings.HasPrefix(x.src(el), "cfg.") {
+							cfgNames = append(cfgNames, x.src(el))
+						}
+					}
+				case *ast.UnaryExpr:
+					if v.Op == token.NOT {
+						if ix, ok := v.X.(*ast.IndexExpr); ok && x.src(ix.X) == "managed" {
+							tokKeys = append(tokKeys, x.src(ix.Index))
+						}
+					}
+				}
+				return true
+			})
+			x.defStrList("protectConfigNames", cfgNames)
+			x.defStrList("protectTokenKey", tokKeys)
+			x.defStrList("protectHeaderNames", hdrNames(prot))
+			last := false
+			if n := len(add.Body.List); n >= 2 {
+				if es, ok := add.Body.List[n-2].(*ast.ExprStmt); ok && x.src(es.X) == "protectManagedHeaders(r, cfg)" {
+					_, isRet := add.Body.List[n-1].(*ast.ReturnStmt)
+					last = isRet
+				}
+			}
+			x.defBool("protectIsLastStatement", last)
+		}
+
 		x.defStrList("wsCompareAddHeaders", wsCompare(add))
 		x.defStrList("wsCompareScheme", wsCompare(sch))
 		x.defStrList("wsCompareServeHTTP", wsCompare(srv))
